@@ -137,3 +137,73 @@ def real_optimize(ir_list, evm_version=None):
             return "PANIC"
         except Exception as e:  # noqa
             return "EXC:" + type(e).__name__
+
+
+# ---- round 3b: statements with control flow for the compile_ir lowering tie
+def gen_cf(rnd, d, scope, loops, st):
+    """a zero-valency statement over repeat / break / continue / cleanup_repeat / if / with / set / goto / label / symbol /
+    djump / unique_symbol / exit_to / sha3_64 / dload / dloadbytes.  scope: with-variables in scope, loops: repeat nesting
+    depth, st: {'n': counter for fresh names}"""
+    def val(dd=1):
+        r = rnd.random()
+        if scope and r < 0.45:
+            v = rnd.choice(scope)
+            return v if rnd.random() < 0.6 else [rnd.choice(["add", "mul", "lt", "sub"]), v, gen_val(rnd, dd)]
+        if r < 0.55:
+            return ["sha3_64", gen_val(rnd, 0), gen_val(rnd, 1)]
+        if r < 0.65:
+            return ["dload", rnd.choice([0, 32, gen_val(rnd, 1)])]
+        if r < 0.70:
+            return ["symbol", rnd.choice(["f1", "f2", "ret1"])]
+        return gen_val(rnd, dd)
+
+    def fresh(p):
+        st["n"] += 1
+        return f"{p}{st['n']}"
+
+    r = rnd.random()
+    if d <= 0 or r < 0.12:
+        k = rnd.random()
+        if loops and k < 0.45:
+            return rnd.choice(["break", "continue", "cleanup_repeat", "break"])
+        if k < 0.6:
+            return ["mstore", rnd.choice([0, 32]), val()]
+        if k < 0.7:
+            return ["unique_symbol", rnd.choice(["u1", "u2", "u3", "u4", "u5", "u6", "u7", "u8"])]
+        if k < 0.8 and scope:
+            return ["set", rnd.choice(scope), val()]
+        if k < 0.85:
+            return ["dloadbytes", val(0), rnd.choice([64, val(0)]), rnd.choice([32, val(0)])]
+        if k < 0.88:
+            return ["exit_to", "return_pc"]
+        return "pass"
+    if r < 0.30:
+        i = fresh("i")
+        bound = rnd.choice([1, 2, 5, 100])
+        rounds = bound if rnd.random() < 0.5 else val()
+        start = rnd.choice([0, 0, 7, val()])
+        body = ["seq"] + [gen_cf(rnd, d - 1, scope + [i], loops + 1, st) for _ in range(rnd.randrange(0, 4))]
+        if rnd.random() < 0.2:
+            body.append(val())       # a valued body: popped by `["POP"] * body.valency`
+        return ["repeat", i, start, rounds, bound, body]
+    if r < 0.45:
+        c = val()
+        if rnd.random() < 0.5:
+            return ["if", c, gen_cf(rnd, d - 1, scope, loops, st)]
+        return ["if", c, gen_cf(rnd, d - 1, scope, loops, st), gen_cf(rnd, d - 1, scope, loops, st)]
+    if r < 0.58:
+        v = fresh("v")
+        return ["with", v, val(), gen_cf(rnd, d - 1, scope + [v], loops, st)]
+    if r < 0.80:
+        return ["seq"] + [gen_cf(rnd, d - 1, scope, loops, st) if rnd.random() < 0.8 else val()
+                          for _ in range(rnd.randrange(0, 5))]
+    if r < 0.86:
+        return ["goto", rnd.choice(["f1", "f2", "ret1"])] + [val() for _ in range(rnd.randrange(0, 3))]
+    if r < 0.95:
+        ps = rnd.sample(["return_buffer", "return_pc", "a", "b"], rnd.randrange(0, 4))
+        name = rnd.choice(["f1", "f2", "ret1", fresh("L"), fresh("L")])
+        # a label body sees only its parameters (new scope) but keeps the enclosing break_dest
+        return ["label", name, ["var_list"] + ps, gen_cf(rnd, d - 1, list(ps), loops, st)]
+    if r < 0.97:
+        return ["djump", val()]
+    return [rnd.choice(["assert", "assert_unreachable"]), val()]
